@@ -142,6 +142,17 @@ class ShuffleBase(Expr):
                 MemoryUsage,
             ),
         ):
+            if (
+                self.ignore_index
+                and self.method == "tasks"
+                and isinstance(
+                    parent, (DropDuplicates, NLargest, NSmallest, MemoryUsage)
+                )
+            ):
+                # This shuffle drops the index (see ``_meta``) and the result
+                # of these reductions carries (or measures) the index of its
+                # input, so the shuffle can't be skipped
+                return
             return type(parent)(self.frame, *parent.operands[1:])
 
     def _layer(self):
